@@ -360,8 +360,15 @@ def family_grammar(rng, costs=(0, 5), fam=None):
         rhs = xs + tail
         rules.append(('S', rhs, an(), cst(), perm_tr(len(rhs), rng.choice([len(rhs), len(rhs), None]))))
         for x in xs:
-            style = rng.choice(['anode', 'anode', 'plain', 'pass'])
-            if style == 'anode':
+            style = rng.choice(['anode', 'anode', 'plain', 'pass', 'twin'])
+            if style == 'twin':
+                # two rules over the same span that differ in cost (and name) only, plus the longer alternative
+                body = rng.choice([['a'], ['a'], ['a', 'a']])
+                rules.append((x, list(body), an(), cst(), rng.choice([[0], []])))
+                rules.append((x, list(body), an(), cst(), rng.choice([[0], []])))
+                if rng.random() < 0.5:
+                    rules.append((x, ['a', 'a'] if body == ['a'] else ['a'], an(), cst(), []))
+            elif style == 'anode':
                 rules.append((x, ['a'], an(), cst(), rng.choice([[0], []])))
                 rules.append((x, ['a', 'a'], an(), cst(), rng.choice([[0, 1], [1, 0], [1], []])))
             elif style == 'plain':
